@@ -101,47 +101,57 @@ Definition set_enum (s : lstate) k r nm := mkl (l_dds s) (l_tree s) (l_num s) (l
 Definition FAILV : Z := -1.
 
 (* ---- mfan.c -------------------------------------------------------------------------------------------------- *)
-(** loop body of ANIcreate_ann_tree over the annotations of one tag, in directory order *)
-Fixpoint load_tree (type anntag : Z) (els : list dd) (t : tree) (atoms : list (Z * node)) (next : Z)
-  : option (tree * list (Z * node) * Z) :=
-  match els with
-  | [] => Some (t, atoms, next)
-  | d :: rest =>
-      let key := AN_CREATE_KEY type (d_ref d) in
-      let tg := if is_data_type type then decode_target (d_data d) else (anntag, d_ref d) in
-      match tins key (mkentry next (d_ref d) (fst tg) (snd tg)) t with
+(** what ANIcreate_ann_tree's loop body and ANIaddentry have in common: register the ANnode as an atom, fill
+    the ANentry, tbbtdins it under AN_CREATE_KEY(type, ref).  None: tbbtdins refused a duplicate key. *)
+Definition add_core (s : lstate) (type annref elmtag elmref : Z) (new : bool) : option (lstate * Z) :=
+  match l_tree s type with
+  | None => None
+  | Some t =>
+      let key := AN_CREATE_KEY type annref in
+      let id := l_next s in
+      match tins key (mkentry id annref elmtag elmref) t with
       | None => None
-      | Some t' => load_tree type anntag rest t' ((next, mknode key false) :: atoms) (next + 1)
+      | Some t' => Some (set_atoms (set_tree s type (Some t') (l_num s type)) ((id, mknode key new) :: l_atoms s) (id + 1), id)
+      end
+  end.
+
+(** loop of ANIcreate_ann_tree over the annotations of one tag, in directory order *)
+Fixpoint load_tree (type anntag : Z) (els : list dd) (s : lstate) : option lstate :=
+  match els with
+  | [] => Some s
+  | d :: rest =>
+      let tg := if is_data_type type then decode_target (d_data d) else (anntag, d_ref d) in
+      match add_core s type (d_ref d) (fst tg) (snd tg) false with
+      | None => None
+      | Some (s', _) => load_tree type anntag rest s'
       end
   end.
 
 (** ANIcreate_ann_tree: returns the new state and the number of annotations (FAILV on failure) *)
 Definition ANIcreate_ann_tree (s : lstate) (type : Z) : lstate * Z :=
   if negb (l_num s type =? -1) then (s, l_num s type) else
+  let s0 := set_tree s type (Some []) 0 in
   match atype2tag type with
-  | None => (set_tree s type (Some []) 0, FAILV)
+  | None => (s0, FAILV)
   | Some anntag =>
       let els := of_tag anntag (l_dds s) in
-      match load_tree type anntag els [] (l_atoms s) (l_next s) with
-      | None => (set_tree s type (Some []) 0, FAILV)
-      | Some (t, atoms, next) => (set_atoms (set_tree s type (Some t) (zlen els)) atoms next, zlen els)
+      match load_tree type anntag els s0 with
+      | None => (s0, FAILV)
+      | Some s1 => (set_tree s1 type (l_tree s1 type) (zlen els), zlen els)
       end
   end.
 
-(** ANIaddentry *)
+(** ANIaddentry (when tbbtdins refuses the key the registered atom is left behind, as in the C code) *)
 Definition ANIaddentry (s : lstate) (type annref elmtag elmref : Z) (new : bool) : lstate * Z :=
   let s1 := if l_num s type =? -1 then set_tree s type (Some []) 0 else s in
-  match atype2tag type, l_tree s1 type with
-  | Some anntag, Some t =>
-      let key := AN_CREATE_KEY type annref in
-      let id := l_next s1 in
-      let s2 := set_atoms s1 ((id, mknode key new) :: l_atoms s1) (id + 1) in
+  match atype2tag type with
+  | None => (s1, FAILV)
+  | Some anntag =>
       let tg := if is_data_type type then (elmtag, elmref) else (anntag, annref) in
-      match tins key (mkentry id annref (fst tg) (snd tg)) t with
-      | None => (s2, FAILV)
-      | Some t' => (set_tree s2 type (Some t') (l_num s1 type + 1), id)
+      match add_core s1 type annref (fst tg) (snd tg) new with
+      | Some (s2, id) => (set_tree s2 type (l_tree s2 type) (l_num s2 type + 1), id)
+      | None => (set_atoms s1 ((l_next s1, mknode (AN_CREATE_KEY type annref) new) :: l_atoms s1) (l_next s1 + 1), FAILV)
       end
-  | _, _ => (s1, FAILV)
   end.
 
 (** ANInewref: Htagnewref, then skip refs present in the tree or in the file *)
